@@ -243,8 +243,11 @@ def envelope(su, th, Gm, what):
         # the error with MatrixLog6(FK^-1 goal); when that relative rotation is a half turn to ~1e-8 the logarithm's
         # generic branch returns a vector of length ~pi*delta/1.5e-8 (2.8e-8 rad for an exact half turn on a 1-joint
         # arm clamped to -pi with the goal at 0), so the kernel sees "no error".  Witness: replays/C07/known/.
-        ctx.skip("success claimed with FK(theta) within 2e-5 of a half turn from the goal: the library's matrix "
-                 "logarithm there is the open finding C01-near-pi-log")
+        # It IS a violation of C07 as written (a pose not reached is claimed): recorded as the open known finding
+        # C07-success-at-relative-half-turn (same root cause as C01-near-pi-log), region-tagged, never skipped.
+        raise Violation("%s [region success_at_relative_half_turn]: success claimed with FK(theta) %.3g rad (a half turn "
+                        "to %.1e) from the goal: the solver's error measure goes through the matrix logarithm's generic "
+                        "branch next to pi (root cause: open finding C01-near-pi-log)" % (what, alpha, PI - alpha))
     slack = su.band_slack(th)
     if dropped(th):
         ctx.label("solution has a joint value below the NearZero cut-off (loosened by it)")
@@ -690,11 +693,17 @@ S_IKFREE = st.fixed_dictionaries({
     "eps": st.one_of(st.just(0.0), G.log_uniform(1e-10, 1e-2), G.log_uniform(1e-6, 3e-3)),
     "delta": DELTA, "pre_fk": st.booleans(), "seed": SEED})
 
+def half_turn_region(case, message):
+    """Open known finding C07-success-at-relative-half-turn: decided by the oracle (FK(theta) within 2e-5 of a half
+    turn from the goal at a claimed success) and carried in the message tag."""
+    return "success_at_relative_half_turn" if "[region success_at_relative_half_turn]" in message else None
+
+
 CLAUSES = [
-    Clause("between_tolerances_goal", c_between, S_BETWEEN, 400, 24000),
-    Clause("reachable_goal_any_start", c_single, S_REACH, 400, 24000),
-    Clause("unreachable_goal_is_failure", c_single, S_BEYOND, 250, 12000),
-    Clause("solve_history_coherent", c_history, S_HISTORY, 250, 12000),
-    Clause("local_convergence", c_local, S_LOCAL, 400, 24000),
+    Clause("between_tolerances_goal", c_between, S_BETWEEN, 400, 24000, region=half_turn_region),
+    Clause("reachable_goal_any_start", c_single, S_REACH, 400, 24000, region=half_turn_region),
+    Clause("unreachable_goal_is_failure", c_single, S_BEYOND, 250, 12000, region=half_turn_region),
+    Clause("solve_history_coherent", c_history, S_HISTORY, 250, 12000, region=half_turn_region),
+    Clause("local_convergence", c_local, S_LOCAL, 400, 24000, region=half_turn_region),
     Clause("ikfree_success_meets_tol", c_ikfree, S_IKFREE, 300, 12000),
 ]
